@@ -195,7 +195,7 @@ def malformed_space(tier):
             for mode in ('db', 'cli'):
                 index.append((n, a, b, 'load-twice', mode))
             # a load that fails part-way, then a load on the same connection
-            for bad in ('bad-level-stamp', 'bad-rain-value'):
+            for bad in ('bad-level-stamp', 'bad-et-first-row'):
                 index.append((n, a, b, 'load-after-failed-load', bad))
 
     def decode(i):
@@ -424,16 +424,21 @@ def run_after_failed_load(case, rain, et, level):
     connection: either refused, or the result equals a clean load"""
     good = (rows_text('datetime,p', rain), rows_text('datetime,e', et),
             rows_text('datetime,z', level))
-    earlier = 10 * 86400
+    # the failed download directly precedes the good one, so that a merge
+    # of the two would still be a uniform record
+    earlier = case['n'] * 1800
     p0 = rows_text('datetime,p', [(t - earlier, v) for t, v in rain])
     e0 = rows_text('datetime,e', [(t - earlier, v) for t, v in et])
     z0 = rows_text('datetime,z', [(t - earlier, v) for t, v in level])
     if case['arg'] == 'bad-level-stamp':
+        # fails at the last water-level row: rain, ET and most of the level
+        # record of the earlier period are already staged
         z0 += '2019-12-22 24:00:00,1.0\n'
     else:
-        lines = p0.split('\n')
-        lines[2] = lines[2].split(',')[0] + ',not-a-number'
-        p0 = '\n'.join(lines)
+        # fails at the first ET row: only the earlier rainfall is staged
+        lines = e0.split('\n')
+        lines[1] = '2019-13-45 00:00:00,' + lines[1].split(',')[1]
+        e0 = '\n'.join(lines)
     clean = sqlite3.connect(':memory:')
     records.load_texts(clean, *good)
     want = records.dump(clean)
